@@ -25,6 +25,7 @@ type Clause struct {
 	Line  string
 	After string // cut/assert position: variable name
 	AfterN int
+	Abstract []ast.Expr // cut/assert: objects whose contents are abstracted (fresh) once the lemma is proved
 }
 
 type Contract struct {
@@ -471,7 +472,7 @@ func (db *SpecDB) loadFile(path string, pkgPath string, marker bool) error {
 				default:
 					return fmt.Errorf("%s: unknown loop clause %q", where, f[1])
 				}
-			case "assert", "cut":
+			case "assert", "cut", "apply", "fork":
 				// cut <name>: expr
 				f := strings.SplitN(rest, " ", 2)
 				if len(f) < 2 {
@@ -486,6 +487,17 @@ func (db *SpecDB) loadFile(path string, pkgPath string, marker bool) error {
 					return err
 				}
 				c.Name = strings.TrimSpace(name)
+				// optional abstraction list: label[@pos] abstract(x, y)
+				if head, abs, ok := strings.Cut(c.Name, " abstract("); ok {
+					c.Name = strings.TrimSpace(head)
+					for _, a := range splitList(strings.TrimSuffix(strings.TrimSpace(abs), ")")) {
+						ax, err := parseSpecExpr(a)
+						if err != nil {
+							return fmt.Errorf("%s: abstract(%s): %v", where, a, err)
+						}
+						c.Abstract = append(c.Abstract, ax)
+					}
+				}
 				// optional position: label@var#k fires once `var` has been assigned k times
 				if lbl, pos, ok := strings.Cut(c.Name, "@"); ok {
 					c.Name = lbl
